@@ -18,6 +18,7 @@ Nothing sleeps: a blocking receive jumps the clock.
 """
 import errno
 import heapq
+import weakref
 
 from . import HarnessError
 
@@ -54,7 +55,9 @@ class SimNet:
     def __init__(self, clock, log, inbox_cap=64):
         self.clock = clock
         self.log = log
-        self.bound = {}            # (ip, port) -> SimSocket
+        # (ip, port) -> SimSocket.  Weak: a socket object the code under test simply drops is closed by the
+        # interpreter, and its port is free again (CPython closes the descriptor when the last reference goes).
+        self.bound = weakref.WeakValueDictionary()
         self.inbox_cap = inbox_cap
         self._seq = 0
         self._eph = 40000
@@ -246,6 +249,14 @@ class SimSocket:
         self.inbox = []
         self.net.log.add("sock.close", self.label)
 
+    def __del__(self):
+        # dropped without close(): the interpreter closes it (and whatever had arrived dies with it)
+        try:
+            if not self.closed:
+                self.close()
+        except BaseException:       # noqa -- never let a finaliser disturb the run
+            pass
+
     def fileno(self):
         # a fake descriptor number would make select()/poll() in the code under test wait on some REAL descriptor
         raise HarnessError("the code under test asked for socket.fileno() (select/poll on sockets is not modelled)")
@@ -301,7 +312,6 @@ class SimSocketModule:
     def __init__(self, net):
         self.net = net
         self.next_label = None
-        self.created = []
 
     def gethostbyname(self, name):
         return "127.0.0.1"
@@ -315,6 +325,4 @@ class SimSocketModule:
     def socket(self, family=AF_INET, type=SOCK_DGRAM, proto=0):
         if family != AF_INET or type != SOCK_DGRAM:
             raise HarnessError("only AF_INET/SOCK_DGRAM is simulated")
-        s = SimSocket(self.net, self.next_label)
-        self.created.append(s)
-        return s
+        return SimSocket(self.net, self.next_label)
